@@ -88,23 +88,14 @@ def gen_cases(rng, n):
         if adv:
             hdrs = [hdr([19, 20]) for _ in range(nb)]
             bros = [[hdr([19, 20]) for _ in range(rng.choice([0, 0, 1, 2, 4]))] for _ in range(nb)]
-            exact = None
-            if i in (0, 3, 6):
-                # always present: a block with exactly the largest brother list the protocol allows (10), a device
-                # that asks for it and an operation that runs to its end
-                k = rng.randrange(nb)
-                bros[k] = [gen.boundary_header(rng, 19, rng.choice([54, 56, 58])) for _ in range(10)]
-                force_ask = exact = k
-            elif rng.random() < 0.08:
+            if rng.random() < 0.08:
                 # the largest brother list the protocol allows (10), and one short of it
                 k = rng.randrange(nb)
                 bros[k] = [gen.boundary_header(rng, 19, rng.choice([54, 56, 58])) for _ in range(rng.choice([10, 10, 9]))]
                 force_ask = k
             else:
                 force_ask = None
-            for bi, bl in enumerate(bros):
-                if bi == exact:
-                    continue
+            for bl in bros:
                 # brothers sharing a block hash: the same header twice, or one differing only in
                 # the parts the hash does not cover (merkle proof, coinbase transaction)
                 if bl and rng.random() < 0.3:
@@ -119,7 +110,7 @@ def gen_cases(rng, n):
             req = {"command": "updateAncestorBlock", "version": 5, "blocks": [h.hex() for h in hdrs]}
         plan = {}
         r = rng.random()
-        if r < 0.3 and nb > 1 and not (adv and exact is not None):
+        if r < 0.3 and nb > 1:
             plan["stop_after"] = rng.randint(1, nb - 1)
             plan["partial"] = adv and rng.random() < 0.6
         elif adv and r < 0.55:
